@@ -1,4 +1,5 @@
 import SupervisorModel.Lemmas.Rotate
+import SupervisorModel.Lemmas.RotateSeg
 /-
   C19 — rotating logs keep the newest output within the configured bounds.
   Property theorems only; the model is `Sv.Rotate` (Model/Rotate.lean), whose comparisons, loop
@@ -222,7 +223,7 @@ theorem invA_step (c : Cfg) (hc : Rotating c) (s : S) (I : InvA c s) (op : Op)
       · simp [hm]
       · simpa [hm] using bd m
   | extReplace n d =>
-    obtain ⟨ws, e, _, hd, hs⟩ := ext_spec n s wf (fun dd => dirSet dd n ⟨0, d⟩) (extReplace n d) rfl
+    obtain ⟨ws, e, _, hd, hs⟩ := ext_spec n s wf (fun dd => dirSet dd n ⟨0, false, d⟩) (extReplace n d) rfl
     refine ⟨⟨e, ?_⟩, ?_⟩
     · rcases ws with ha | hf
       · obtain ⟨ha0, hn⟩ := hs ha
@@ -275,11 +276,11 @@ structure InvZ (W : Bytes) (s : S) : Prop where
 
 theorem emit_off (c : Cfg) (hoff : c.rotating = false ∨ c.maxBytes ≤ 0) (s : S) (h : s.err = none)
     (hs : s.stream = .attached 0) (f : File) (hf : s.dir.get 0 = some f) (b : Bytes) :
-    emit c b s = ⟨dirSet s.dir 0 ⟨f.start, f.data ++ b⟩, .attached 0, s.hist + b.length, none⟩ := by
+    emit c b s = ⟨dirSet s.dir 0 ⟨f.start, f.own, f.data ++ b⟩, .attached 0, s.hist + b.length, none⟩ := by
   unfold emit
   rw [okThen_ok _ _ h]
   have hs1 : ({ streamWrite b s with hist := s.hist + b.length } : S) =
-      ⟨dirSet s.dir 0 ⟨f.start, f.data ++ b⟩, .attached 0, s.hist + b.length, none⟩ := by
+      ⟨dirSet s.dir 0 ⟨f.start, f.own, f.data ++ b⟩, .attached 0, s.hist + b.length, none⟩ := by
     simp [streamWrite, hs, hf, h]
   rw [hs1]
   rcases hoff with hr | hm
@@ -302,7 +303,7 @@ theorem invZ_runFrom (c : Cfg) (hoff : c.rotating = false ∨ c.maxBytes ≤ 0) 
       · simpa [written, runFrom, List.append_assoc] using this
       · simp only [step]
         rw [emit_off c hoff s I.ok I.att f hf b]
-        refine ⟨rfl, rfl, ⟨⟨f.start, f.data ++ b⟩, by simp, by simp [hW]⟩, ?_⟩
+        refine ⟨rfl, rfl, ⟨⟨f.start, f.own, f.data ++ b⟩, by simp, by simp [hW]⟩, ?_⟩
         intro n hn
         simpa [hn] using I.only n hn
     | reopen =>
@@ -327,7 +328,7 @@ theorem maxbytes0_never (c : Cfg) (hoff : c.rotating = false ∨ c.maxBytes ≤ 
     ∀ n, n ≠ 0 → (run c ops).dir.get n = none := by
   have I0 : InvZ [] (init c) := by
     refine ⟨by simp [init, openFile, fexists], by simp [init, openFile, fexists],
-      ⟨⟨0, []⟩, by simp [init, openFile, fexists], rfl⟩, ?_⟩
+      ⟨⟨0, true, []⟩, by simp [init, openFile, fexists], rfl⟩, ?_⟩
     intro n hn
     simp [init, openFile, fexists, hn]
   have I := invZ_runFrom c hoff ops _ _ I0 h
@@ -345,7 +346,7 @@ theorem write_at_path (c : Cfg) (hc : Rotating c) (s : S) (h : s.err = none)
         content (step c s (.write b)).dir.get 0 = f.data ++ b ∧
         ∀ n, n ≠ 0 → (step c s (.write b)).dir.get n = s.dir.get n) ∧
     (c.maxBytes ≤ ((f.data ++ b).length : Int) →
-        (step c s (.write b)).dir.get 0 = some ⟨s.hist + b.length, []⟩ ∧
+        (step c s (.write b)).dir.get 0 = some ⟨s.hist + b.length, true, []⟩ ∧
         (0 < c.backupCount → content (step c s (.write b)).dir.get 1 = f.data ++ b)) := by
   obtain ⟨e, st, _, g⟩ := emit_attached_gen c hc.rot hc.pos s h hs f hf b
   refine ⟨e, st, ?_, ?_⟩
@@ -401,7 +402,7 @@ theorem backups0_truncates (c : Cfg) (hc : Rotating c) (h0 : c.backupCount = 0) 
     exists; `clear` leaves it empty and touches no backup, `reopen` changes no existing file. -/
 theorem clear_reopen_safe (c : Cfg) (s : S) (h : s.err = none) :
     ((step c s .clear).err = none ∧ (step c s .clear).stream = .attached 0 ∧
-      (step c s .clear).dir.get 0 = some ⟨s.hist, []⟩ ∧
+      (step c s .clear).dir.get 0 = some ⟨s.hist, true, []⟩ ∧
       ∀ n, n ≠ 0 → (step c s .clear).dir.get n = s.dir.get n) ∧
     ((step c s .reopen).err = none ∧ (step c s .reopen).stream = .attached 0 ∧
       ((step c s .reopen).dir.get 0).isSome = true ∧
@@ -441,6 +442,128 @@ theorem lost_without_reopen :
     let s := run ⟨true, 4, 1⟩ [.write [1], .extRemove 0, .write [2, 3], .write [4, 5]]
     s.err = none ∧ s.dir.get 1 = none ∧ (s.dir.get 0).map (·.data) = some [] := by
   decide
+
+/-! ### segments_ordered: every history, all five kinds of operation -/
+
+def noReplace : Op → Bool
+  | .extReplace _ _ => false
+  | _ => true
+
+theorem segInv_step (c : Cfg) (hc : Rotating c) (W : Bytes) (s : S) (I : SegInv W s) (op : Op) :
+    SegInv (W ++ written [op]) (step c s op) ∧
+    (noReplace op = true → AllOwn s.dir.get → AllOwn (step c s op).dir.get) := by
+  cases op with
+  | write b =>
+    have := segInv_write c hc.rot hc.pos W s I b
+    simpa [written, step] using ⟨this.1, fun _ => this.2⟩
+  | clear =>
+    have := segInv_clear c W s I
+    simpa [written, step] using ⟨this.1, fun _ => this.2⟩
+  | reopen =>
+    have := segInv_reopen c W s I
+    simpa [written, step] using ⟨this.1, fun _ => this.2⟩
+  | extRemove k =>
+    have h1 : SegInv W (extRemove k s) :=
+      segInv_ext W s I k (fun d => dirRemove d k) (extRemove k) rfl
+        (fun m => if m = k then none else s.dir.get m) rfl (segDir_remove W _ I.dir k)
+        (by intro hk x hx; simp [hk] at hx)
+        (by intro hk; have : ¬ (0 : Int) = k := fun h => hk h.symm; simp [this])
+    refine ⟨by simpa [written, step] using h1, ?_⟩
+    intro _ ao
+    obtain ⟨_, _, hd, _⟩ := ext_spec2 k s I.wf (fun d => dirRemove d k) (extRemove k) rfl
+    show AllOwn (extRemove k s).dir.get
+    rw [hd]
+    exact allOwn_remove _ ao k
+  | extReplace k d =>
+    have h1 : SegInv W (extReplace k d s) :=
+      segInv_ext W s I k (fun dd => dirSet dd k ⟨0, false, d⟩) (extReplace k d) rfl
+        (fun m => if m = k then some ⟨0, false, d⟩ else s.dir.get m) rfl (segDir_foreign W _ I.dir k d)
+        (by intro hk x hx; simp [hk] at hx; rw [← hx])
+        (by intro hk; have : ¬ (0 : Int) = k := fun h => hk h.symm; simp [this])
+    refine ⟨by simpa [written, step] using h1, ?_⟩
+    intro h; simp [noReplace] at h
+
+theorem written_cons (op : Op) (r : List Op) : written (op :: r) = written [op] ++ written r := by
+  cases op <;> simp [written]
+
+theorem segInv_runFrom (c : Cfg) (hc : Rotating c) (ops : List Op) :
+    ∀ s W, SegInv W s →
+      SegInv (W ++ written ops) (runFrom c s ops) ∧
+      ((∀ op ∈ ops, noReplace op = true) → AllOwn s.dir.get → AllOwn (runFrom c s ops).dir.get) := by
+  induction ops with
+  | nil => intro s W I; exact ⟨by simpa [written, runFrom] using I, fun _ h => h⟩
+  | cons op r ih =>
+    intro s W I
+    obtain ⟨I1, a1⟩ := segInv_step c hc W s I op
+    obtain ⟨I2, a2⟩ := ih (step c s op) (W ++ written [op]) I1
+    simp only [runFrom, List.foldl_cons]
+    refine ⟨?_, ?_⟩
+    · rw [written_cons, ← List.append_assoc]; exact I2
+    · intro h ao
+      exact a2 (fun o ho => h o (List.mem_cons_of_mem _ ho)) (a1 (h op (List.mem_cons_self ..)) ao)
+
+theorem segInv_init (c : Cfg) : SegInv [] (init c) ∧ AllOwn (init c).dir.get := by
+  have hg : (init c).dir.get = fun n => if n = 0 then some ⟨0, true, []⟩ else none := by
+    funext n
+    simp [init, openFile, fexists]
+  have hd : SegDir [] (fun n : Int => if n = 0 then some (⟨0, true, []⟩ : File) else none) := by
+    have := segDir_new0 [] (fun _ => none) ⟨by simp, by simp, by simp⟩
+    simpa using this
+  refine ⟨⟨by simp [init, openFile, fexists], by simp [init, openFile, fexists], by rw [hg]; exact hd,
+    Or.inl ⟨by simp [init, openFile, fexists], ⟨0, true, []⟩, by rw [hg]; simp, by intro _; simp [fend]⟩⟩, ?_⟩
+  rw [hg]
+  intro n f hf
+  by_cases hn : n = 0
+  · simp [hn] at hf; rw [← hf]
+  · simp [hn] at hf
+
+/-- **segments_ordered**: in every history — writes of any size, clears, reopens, files removed
+    and files replaced from outside, in any interleaving — every file that the handler itself
+    created (`own`; files put there from outside hold foreign data and are excluded) holds a
+    contiguous segment of the write history: `written = pre ++ content ++ post`, the segment
+    starting at the history offset at which the file was created; such files exist only under
+    the names the handler uses (index ≥ 0); and they are age-ordered and disjoint: a file under a
+    higher backup index ends in the history before any file under a lower index begins.  So
+    nothing is ever reordered or duplicated, and the only bytes of the history missing from the
+    directory are the gaps *between* these segments — which `suffix_no_gap` /
+    `nothing_lost_after` (whole dropped oldest files), `clear_reopen_safe` (the log emptied by a
+    clear) and `lost_without_reopen` (files removed from outside) account for. -/
+theorem segments_ordered (c : Cfg) (hc : Rotating c) (ops : List Op) :
+    (∀ n f, (run c ops).dir.get n = some f → f.own = true →
+        ∃ pre post : Bytes, written ops = pre ++ f.data ++ post ∧ pre.length = f.start) ∧
+    (∀ n f, (run c ops).dir.get n = some f → f.own = true → 0 ≤ n) ∧
+    (∀ n m f g, (run c ops).dir.get n = some f → (run c ops).dir.get m = some g →
+        f.own = true → g.own = true → m < n → f.start + f.data.length ≤ g.start) := by
+  have I := (segInv_runFrom c hc ops (init c) [] (segInv_init c).1).1
+  simp only [List.nil_append] at I
+  exact ⟨I.dir.seg, I.dir.nonneg, I.dir.order⟩
+
+/-- the same without the ghost fields, for histories in which nothing is *replaced* from outside
+    (writes, clears, reopens, external removals): there is an offset for every name such that
+    each file present is the history segment at its offset, and the segments are age-ordered. -/
+theorem segments_ordered_no_replace (c : Cfg) (hc : Rotating c) (ops : List Op)
+    (h : ∀ op ∈ ops, noReplace op = true) :
+    ∃ off : Int → Nat,
+      (∀ n f, (run c ops).dir.get n = some f →
+          ∃ pre post : Bytes, written ops = pre ++ f.data ++ post ∧ pre.length = off n) ∧
+      (∀ n m f g, (run c ops).dir.get n = some f → (run c ops).dir.get m = some g → m < n →
+          off n + f.data.length ≤ off m) := by
+  obtain ⟨I, ao⟩ := segInv_runFrom c hc ops (init c) [] (segInv_init c).1
+  have ao := ao h (segInv_init c).2
+  simp only [List.nil_append] at I
+  refine ⟨fun n => (((run c ops).dir.get n).map (·.start)).getD 0, ?_, ?_⟩
+  · intro n f hf
+    obtain ⟨pre, post, e, hl⟩ := I.dir.seg n f hf (ao n f hf)
+    exact ⟨pre, post, e, by simp only [hf, Option.map_some, Option.getD_some]; exact hl⟩
+  · intro n m f g hf hg hlt
+    have := I.dir.order n m f g hf hg (ao n f hf) (ao m g hg) hlt
+    simp only [hf, hg, Option.map_some, Option.getD_some]
+    exact this
+
+-- a file replaced from outside is not a segment, which is why `own` is in the statement
+example : ((run ⟨true, 4, 1⟩ [.write [1], .extReplace 1 [9, 9]]).dir.get 1).map (·.own) = some false := by decide
+example : ((run ⟨true, 4, 1⟩ [.write [1, 2], .extRemove 0, .write [3], .reopen, .write [4, 5, 6, 7], .write [8]]).dir.get 1).map
+    (fun f => (f.start, f.own, f.data)) = some (3, true, [4, 5, 6, 7]) := by decide
 
 -- non-vacuity of the hypotheses
 example : ∀ op ∈ [Op.write [1], .clear, .reopen], own op = true := by decide
